@@ -1,11 +1,14 @@
 import Interceptor.Driver.Util
 import Interceptor.Model.ReceiveLog
 import Interceptor.Spec.Nack
+import Interceptor.Model.StreamFilter
 /-
 Drivers for C03.
   receivelog / receivelog-spec : ops `new size=S` | `add seq=Q` | `missing skip=K`
-  nackgen / nackgen-spec       : ops `cfg size=S skip=K max=M` | `bind ssrc=A nack=0|1` | `unbind ssrc=A` |
+  nackgen / nackgen-spec       : ops `cfg size=S skip=K max=M` | `bind ssrc=A nack=0|1` | `bind ssrc=A fbl=<code>` | `unbind ssrc=A` |
                                  `rtp ssrc=A seq=Q` | `rtperr ssrc=A` | `rtpbad ssrc=A` | `tick` | `ticks n=N` | `failnext n=K`
+`bind … fbl=<code>`: the stream's RTCPFeedback list by its code (Model/StreamFilter.lean); it is rewritten to
+`nack=<streamSupportNack of the list>` before model and specification see it.
 `failnext n=K` makes the harness' RTCP writer fail K times; a NACK handed to a failing writer has still been
 written by the interceptor, so the op changes nothing in model or specification.
 The `-spec` components run the abstract specification (Spec/Nack.lean) on the same op lines.
@@ -81,8 +84,24 @@ def sortNats (xs : List Nat) : List Nat := xs.mergeSort (· ≤ ·)
 def showNacks (pfx : String) (out : List (Nat × List Nat)) : List String :=
   (out.mergeSort (fun a b => a.1 ≤ b.1)).map fun p => s!"{pfx}nack ssrc={p.1} {showNats (sortNats p.2)}"
 
-def nackgenStep (s : GState) (ts : List String) : GState × List String :=
+/-- `bind ssrc=A fbl=<code>` ↦ `bind ssrc=A nack=<streamSupportNack of the list>`; an ill-formed code stays as it
+is (and is then refused as `bad-op`). -/
+def normBind (ts : List String) : List String :=
   match ts with
+  | "bind" :: rest =>
+    match parseKV rest with
+    | some m =>
+      match m.find? (·.1 == "fbl") with
+      | some (_, code) =>
+        match Interceptor.StreamFilter.boundByCode code with
+        | some b => "bind" :: (rest.filter fun t => !t.startsWith "fbl=") ++ [if b then "nack=1" else "nack=0"]
+        | none => ts
+      | none => ts
+    | none => ts
+  | _ => ts
+
+def nackgenStep (s : GState) (ts : List String) : GState × List String :=
+  match normBind ts with
   | [] => (s, ["bad-op"])
   | name :: rest =>
     match parseKV rest with
@@ -156,7 +175,7 @@ def specTick (cfg : ReceiveLog.Cfg) (ss : List (Nat × NackSpec.GStream)) :
   (rs.map fun p => (p.1, p.2.1), rs.filterMap fun p => p.2.2.map fun l => (p.1, l))
 
 def nackgenSpecStep (s : SState) (ts : List String) : SState × List String :=
-  match ts with
+  match normBind ts with
   | [] => (s, ["bad-op"])
   | name :: rest =>
     match parseKV rest with
